@@ -63,7 +63,8 @@ def _guarded(ev):
     for h in ev.handlers:
         if any(x in ("AttributeError", "ImportError", "Exception", "BaseException") for x in h):
             return True
-    for (txt, pol, node) in ev.guards:
+    for g in ev.guards:
+        txt, pol = g[0], g[1]
         if "hasattr(" in txt and pol:
             return True
     return False
@@ -453,3 +454,67 @@ def rule_purity(rep, res, entry=None, rule="R-PURITY", ignore_origins=()):
                              f"(reached only through views: asarray/atleast_nd/basic slicing/attribute load, no copy): "
                              f"the argument is modified and repeated calls give different answers")
     return n
+
+
+def rule_dtype(rep, res, entry=None, rule="R-DTYPE"):
+    """R-DTYPE: a result buffer whose element type is inherited from a caller array (zeros_like/empty_like
+    without dtype=) receives solver output: integer targets silently truncate the fitted intensities."""
+    entry = entry or res.entry
+    for ev in res.events("inplace"):
+        t = ev.d["target"]
+        src = t.tag("dtype_from")
+        if not src:
+            continue
+        v = ev.d["value"].flat()
+        solved = any(r in res.heap and res.heap[r].kind == "cvxvar" for r in v.refs)
+        if solved:
+            rep.violated(rule, "result buffer element type", where=ev.loc, construct=ev.text(), entry=entry,
+                         config=res.config,
+                         msg=f"solver output is stored into a buffer whose dtype is inherited from the caller's "
+                             f"`{', '.join(sorted(src))}` (…_like without dtype=): integer-typed targets truncate the fitted "
+                             f"values")
+
+
+def objective_nf(obj):
+    """(sense, expr) with leading minus signs folded into the sense (Minimize(-f) == Maximize(f))."""
+    if obj is None or obj.tag("cvx") != "objective":
+        return None, None
+    sense = obj.tag("sense")
+    expr = obj.tag("atom")[1][0]
+    for _ in range(8):
+        a = expr.tag("atom")
+        if a and a[0] == "neg":
+            expr = a[1][0]
+            sense = "Maximize" if sense == "Minimize" else "Minimize"
+        elif a and a[0] == "div" and not a[1][1].tag("cvx") and _positive_scalar(a[1][1]):
+            expr = a[1][0]          # f / n with n > 0 has the same minimiser
+        elif a and a[0] == "mul" and any(not o.tag("cvx") and _positive_scalar(o) for o in a[1]) \
+                and sum(1 for o in a[1] if o.tag("cvx")) == 1:
+            expr = [o for o in a[1] if o.tag("cvx")][0]
+        else:
+            break
+    return sense, expr
+
+
+def _positive_scalar(v):
+    if v.known and isinstance(v.const, (int, float)) and not isinstance(v.const, bool):
+        return v.const > 0
+    return v.tag("dim") is not None or v.sign == "POS"
+
+
+def atoms_in(v):
+    return [a for a, _, _ in walk_atoms(v)]
+
+
+def leaf_kinds(res, v):
+    """(param ids, var ids) among the leaves of a cvx expression"""
+    ps, vs = set(), set()
+    for r in v.flat().refs:
+        o = res.heap.get(r)
+        if o is None:
+            continue
+        if o.kind == "cvxparam":
+            ps.add(r)
+        elif o.kind == "cvxvar":
+            vs.add(r)
+    return ps, vs
